@@ -32,8 +32,14 @@ def dumps(obj):
 
 
 def get_prop(pid):
-    mod = importlib.import_module(f"ticcsim.props.{pid}")
-    return mod.PROP
+    try:
+        mod = importlib.import_module(f"ticcsim.props.{pid}")
+        return mod.PROP
+    except ModuleNotFoundError as e:
+        if e.name != f"ticcsim.props.{pid}":
+            raise
+    from .props import traced_props
+    return traced_props.REGISTRY[pid]
 
 
 def main(argv=None):
